@@ -14,7 +14,9 @@ LIBS = 'base,config,remote,icinga,methods,checker,notification'
 RULE = ('every statement form x {filter, event, inbox, console} x {marker probe, plain probe}; every live function / prototype method '
         '(enumerated from ScriptGlobal::GetGlobals() and the type prototypes of the running process) x {marker probe in filter+console, '
         'plain calls with 1-3 generated argument lists in console/filter/event, on local and on shared receivers, with lambda and '
-        'native callbacks}; every live type as constructor; every no_user_view field of every type with a live object; hidden globals. '
+        'native callbacks}; every UNSAFE live function as callback of every callback-taking safe Array method through GetFilterTargets '
+        '(without and with a permission filter) and event filters; every live type as constructor; every no_user_view field of every '
+        'type with a live object, dotted and as bare identifier after `using <object>`; hidden globals. '
         'marker probe = the sub-expression that is evaluated right after the sandbox test is a call of `sbmark()`, a function the harness registers '
         'side-effect-free and that sets a flag, so "marker reached" vs "stopped before" is read from that flag, never from error text. non-trivial = the probe reached the '
         'interpreter (compiled) and produced a verdict or executed; distinct = distinct probe text')
@@ -282,6 +284,60 @@ def generate(seed, tier):
                 lines.append(probe(k, 'console', 0, code, desc))
     for j in range(0, len(lines), 25):
         add(lines[j:j + 25], 'hidden-field')
+    # 4b. the same fields as BARE identifiers resolved through `using <live object>` (VMOps::FindVarImport)
+    lines = []
+    k = 0
+    for h in hidden:
+        if not h['live'] or h['type'] not in objs:
+            continue
+        ox = 'get_object(%s, "%s")' % (h['type'], objs[h['type']])
+        desc = 'kind=using ty=%s field=%s' % (hx(h['type']), hx(h['field']))
+        modes = ('console', 'filter', 'event') if h['field'].startswith('password') else (('console', 'filter', 'event')[(k + seed) % 3],)
+        for mode in modes:
+            k += 1
+            lines.append(probe(k, mode, 1, 'using %s\n[ %s, %s ].len()' % (ox, h['field'], M), desc))
+        k += 1
+        lines.append(probe(k, 'console', 0, 'using %s\n%s' % (ox, h['field']), desc))
+        if h['field'] == 'password':
+            for mode in ('filter', 'filterperm', 'event'):
+                k += 1
+                lines.append(probe(k, mode, 0, 'using %s\npassword == "sbSECRETpw"' % ox, desc, leak=1))
+                k += 1
+                lines.append(probe(k, mode, 0, 'using %s\nmatch("sbSECRET*", password)' % ox, desc, leak=1))
+    # controls: `using` does resolve bare identifiers of a live object (a visible field is readable)
+    for ty, fld in (('Host', 'address'), ('ApiUser', 'permissions')):
+        if ty in objs:
+            for mode in ('console', 'filter'):
+                k += 1
+                lines.append(probe(k, mode, 1, 'using get_object(%s, "%s")\n[ %s, %s ].len()' % (ty, objs[ty], fld, M),
+                                   'kind=using ty=%s field=%s' % (hx(ty), hx(fld))))
+    for j in range(0, len(lines), 25):
+        add(lines[j:j + 25], 'hidden-field-via-using')
+    # 2b. every UNSAFE function reachable from the globals / the prototypes, handed as CALLBACK to every callback-taking
+    #     safe method, through the real GetFilterTargets path (without and with a permission filter) and event filters
+    hof = [f for f in fns if f['safe'] and f['path'].startswith('@Array.') and
+           any(a in f['args'].split(',') for a in ('func', 'less_cmp', 'reduce', 'callback', 'cmp'))]
+    unsafe = [f for f in fns if not f['safe']]
+    for cbf in unsafe:
+        if cbf['path'].startswith('@'):
+            ty, key = cbf['path'][1:].split('.', 1)
+            rcv = {'Namespace': 'globals', 'Array': 'SbArr', 'Dictionary': 'SbDict', 'Object': HOST, 'ConfigObject': HOST,
+                   'Checkable': HOST, 'Function': 'regex', 'Type': 'Host', 'Reference': '(&SbArr)', 'DateTime': 'DateTime()'}.get(ty)
+            if rcv is None:
+                continue
+            cbx = '%s.%s' % (rcv, key)
+        else:
+            cbx = cbf['path']
+        ps = []
+        for m_ in hof:
+            key = m_['path'].split('.', 1)[1]
+            desc = ('kind=call fn=%s recv=lit rty=%s key=%s lsafe=1 cb=native cbn=%s' % (hx(m_['name']), hx('Array'), hx(key), hx(cbf['name'])))
+            modes = ['filter', 'filterperm'] + (['event', 'inbox', 'console'] if tier != 'quick' else [('event', 'inbox', 'console')[rnd.randrange(3)]])
+            for mode in modes:
+                uid[0] += 1
+                ps.append((mode, 0, '[ "SbCb%d", 1 ].%s(%s)\n0' % (uid[0], key, cbx), desc))
+        lines = [probe(i + 1, mode, marker, code, desc) for i, (mode, marker, code, desc) in enumerate(ps)]
+        add(lines, 'unsafe-callback', cb=cbf['name'])
     # 5. hidden globals (F-C19-b), each in a case of its own
     for mode, code, leak in (('console', 'TicketSalt', 0), ('console', 'globals.TicketSalt', 0), ('filter', 'TicketSalt == "sbSALTval"', 1),
                              ('event', 'TicketSalt == "sbSALTval"', 1), ('console', 'globals.values()', 0),
